@@ -41,17 +41,25 @@ class CtlLoop(asyncio.SelectorEventLoop):
 
     def _run_once(self):
         c = self.controller
-        if not self._ready and c is not None and c.active:
+        for _ in range(8):
+            # (the controller may let virtual time pass up to a moment between two timer deadlines and act there: asked again
+            # until something is runnable, so that the selector never really sleeps)
+            if not (not self._ready and c is not None and c.active):
+                break
             while self._scheduled and self._scheduled[0]._cancelled:
                 h = heapq.heappop(self._scheduled)
                 h._scheduled = False
             if self.virtual:
                 due = self._scheduled and self._scheduled[0]._when <= self.vnow
-                if not due:
-                    nxt = self._scheduled[0]._when if self._scheduled else None
-                    c.on_idle(nxt)
+                if due:
+                    break
+                nxt = self._scheduled[0]._when if self._scheduled else None
+                c.on_idle(nxt)
             elif not self._scheduled:
                 c.on_idle(None)
+                break
+            else:
+                break
         super()._run_once()
 
 
@@ -71,6 +79,9 @@ class Controller:
         self.world = None
         self.done_seen = set()
         self.full_trace = []            # every event in order, for the monitors
+        self.external = []              # external events still to be injected: {"sid", "clock", "time"} (real-time runs)
+        self.script_sims = {}           # sid -> ScriptSim instance
+        self.injected = []              # (sid, event time) of the external events injected so far
 
     def emit(self, ev):
         self.events.append(ev)
@@ -94,6 +105,25 @@ class Controller:
 
     def on_idle(self, next_timer):
         self.flush()
+        due = [x for x in self.external if x["clock"] <= self.loop.vnow and x["sid"] in self.script_sims]
+        if due:
+            # an external event reaches a simulator while it is idle (not inside step()): it calls mosaik's set_event from outside
+            x = due[0]
+            self.external.remove(x)
+            # an event for the period that is running now (the real-time cap at this moment) or a later one: never for the past
+            f = x["ticks_per_step"]
+            t_ev = -(-int(round(self.loop.vnow)) // f) + x["offset"]
+            self.injected.append((x["sid"], t_ev))
+            self.current = ("extevent", x["sid"], t_ev)
+            self.emit(("set_event", x["sid"], t_ev))
+            sim = self.script_sims[x["sid"]]
+            task = self.loop.create_task(sim.mosaik.set_event(t_ev))
+            task.add_done_callback(lambda t: t.exception() if not t.cancelled() else None)
+            return
+        # real time may also pass up to the moment the next external event arrives (between two timer deadlines)
+        ext = [x["clock"] for x in self.external if x["clock"] > self.loop.vnow and x["sid"] in self.script_sims]
+        if ext and next_timer is not None and min(ext) < next_timer:
+            next_timer = min(ext)
         if not self.pending:
             if next_timer is not None:
                 self.current = ("tick", next_timer - self.loop.vnow)
@@ -133,6 +163,7 @@ class ScriptSim(mosaik_api_v3.Simulator):
         self.meta = copy.deepcopy(self.cfg["meta"])
         self.count = {}
         self.nsteps = 0
+        self.ctl.script_sims[sid] = self
         return self.meta
 
     def create(self, num, model, **kw):
@@ -150,6 +181,7 @@ class ScriptSim(mosaik_api_v3.Simulator):
         beh = self.cfg["script"](time, k, n)
         self.out = beh
         self.cur = (time, k)
+        self.last_get = None
         self.ctl.emit(("begin", self.sid, tiers, copy.deepcopy(inputs), max_advance, self.ctl.loop.vnow))
         for req in beh.get("async_before", []):
             yield from self._async(req)
@@ -161,8 +193,15 @@ class ScriptSim(mosaik_api_v3.Simulator):
 
     def _async(self, req):
         if req[0] == "set_data":
-            self.ctl.emit(("set_data", self.sid, req[1], req[2]))
-            yield self.mosaik.set_data(req[2])
+            payload = req[2]
+            if self.cfg.get("echo") and getattr(self, "last_get", None) is not None:
+                # the values sent are a function of the last get_data answer of this step
+                digest = 600000 + sum((i + 1) * (v if isinstance(v, int) else 7) for i, v in
+                                      enumerate(x for _f, vals in sorted(self.last_get.items()) for _a, x in sorted(vals.items()))) % 1000
+                payload = {src: {dst: {a: (None if v is None else digest) for a, v in attrs.items()} for dst, attrs in dests.items()}
+                           for src, dests in payload.items()}
+            self.ctl.emit(("set_data", self.sid, req[1], payload))
+            yield self.mosaik.set_data(payload)
         elif req[0] == "get_data":
             self.ctl.emit(("get_data_req", self.sid, req[1]))
             # on a cache miss mosaik forwards the request to the other simulator's get_data() (outside
@@ -175,6 +214,7 @@ class ScriptSim(mosaik_api_v3.Simulator):
                 self.ctl.passthrough = None
             # what the requester was handed, and what the other simulator answered to the forwarded request (if any)
             self.ctl.emit(("get_data_res", self.sid, req[1], copy.deepcopy(req[2]), copy.deepcopy(res), list(self.ctl.passthrough_log)))
+            self.last_get = copy.deepcopy(res)
         elif req[0] == "set_event":
             self.ctl.emit(("set_event", self.sid, req[1]))
             yield self.mosaik.set_event(req[1])
